@@ -119,11 +119,11 @@ Proof. intros H. unfold delivered. rewrite flat_map_app. cbn. unfold delivered_o
 Definition nheld (s : st) : nat :=
   (length (idle s) + length (lent s) + length (rel s) + length (scratch s) + length (delivered (wants s)))%nat.
 Definition occ (s : st) (x : nat) : nat :=
-  (cocc (idle s) x + cocc (lent s) x + cocc (rel s) x + cocc (scratch s) x + cocc (delivered (wants s)) x + cocc (closing s) x)%nat.
+  (cocc (idle s) x + cocc (lent s) x + cocc (rel s) x + cocc (scratch s) x + cocc (delivered (wants s)) x + cocc (closelog s) x)%nat.
 
 Lemma held_length s : length (held s) = nheld s.
 Proof. unfold held, nheld. rewrite !app_length. lia. Qed.
-Lemma held_cocc s x : cocc (held s ++ closing s) x = occ s x.
+Lemma held_cocc s x : cocc (held s ++ closelog s) x = occ s x.
 Proof. unfold held, occ. rewrite !count_occ_app. lia. Qed.
 
 (* wants may only evolve like this: same deadlines, and nothing becomes pending again *)
@@ -145,7 +145,8 @@ Definition dl_inv (s : st) : Prop :=
 
 Record Inv (cf : cfg) (s : st) : Prop := {
   inv_acc : cnt s = Z.of_nat (nheld s + length (closing s) + length (dials s) + decs s);
-  inv_occ : forall x, (occ s x <= 1)%nat /\ ((1 <= occ s x)%nat -> (x < next s)%nat);
+  inv_occ : forall x, ((x < next s)%nat -> occ s x = 1%nat) /\ ((next s <= x)%nat -> occ s x = 0%nat);
+  inv_clog : forall x, (cocc (closing s) x <= cocc (closelog s) x)%nat;
   inv_bound : cnt s <= eff_max cf;
   inv_dl : dl_inv s }.
 
@@ -160,7 +161,7 @@ Ltac splits := repeat match goal with |- _ /\ _ => split end.
 
 Lemma dec_spec cf s : let s' := dec_conns_count cf s in
   idle s' = idle s /\ lent s' = lent s /\ rel s' = rel s /\ scratch s' = scratch s /\ wants s' = wants s /\
-  decs s' = decs s /\ closing s' = closing s /\ next s' = next s /\ clock s' = clock s /\
+  decs s' = decs s /\ closing s' = closing s /\ next s' = next s /\ clock s' = clock s /\ closelog s' = closelog s /\
   cnt s' + Z.of_nat (length (dials s)) + 1 = cnt s + Z.of_nat (length (dials s')) /\ cnt s' <= cnt s.
 Proof.
   unfold dec_conns_count. destruct (negb (waiton cf)); cbn; [splits; auto; lia|].
@@ -169,7 +170,7 @@ Qed.
 
 Lemma release_spec cf s c : let s' := release_conn cf s c in
   cnt s' = cnt s /\ lent s' = lent s /\ rel s' = rel s /\ scratch s' = scratch s /\ dials s' = dials s /\
-  decs s' = decs s /\ closing s' = closing s /\ next s' = next s /\ clock s' = clock s /\
+  decs s' = decs s /\ closing s' = closing s /\ next s' = next s /\ clock s' = clock s /\ closelog s' = closelog s /\
   (length (idle s') + length (delivered (wants s')) = length (idle s) + length (delivered (wants s)) + 1)%nat /\
   (forall x, (cocc (idle s') x + cocc (delivered (wants s')) x =
              cocc (idle s) x + cocc (delivered (wants s)) x + (if Nat.eq_dec c x then 1 else 0))%nat) /\
@@ -213,15 +214,15 @@ Qed.
 Ltac use_dec cf s1 :=
   let S := fresh "S" in
   pose proof (dec_spec cf s1) as S; cbv zeta in S;
-  destruct S as (Ei & El & Er & Es & Ew & Ed & Ecl & En & Eck & Ecnt & Ele).
+  destruct S as (Ei & El & Er & Es & Ew & Ed & Ecl & En & Eck & Elg & Ecnt & Ele).
 Ltac use_rel cf s1 c :=
   let S := fresh "S" in
   pose proof (release_spec cf s1 c) as S; cbv zeta in S;
-  destruct S as (Rc & Rl & Rr & Rs & Rd & Rdc & Rcl & Rn & Rck & Rlen & Rocc & Rext).
+  destruct S as (Rc & Rl & Rr & Rs & Rd & Rdc & Rcl & Rn & Rck & Rlg & Rlen & Rocc & Rext).
 
 Lemma step_inv cf s l s' : Inv cf s -> step cf s l = Some s' -> Inv cf s'.
 Proof.
-  intros [A O B D] H. destruct l; cbn in H.
+  intros [A O CL B D] H. destruct l; cbn in H.
   - (* LAcquire *)
     destruct (tmo <=? 0) eqn:ET; [discriminate|]. injection H as <-. unfold acquire.
     destruct (idle s) as [|c0 r0] eqn:EI.
@@ -270,7 +271,7 @@ Proof.
     pose proof (remove_nth_length _ _ _ EK) as HK.
     destruct d as [|w]; injection H as <-.
     + use_dec cf (with_dials s (remove_nth (dials s) k)). cbn in *.
-      constructor; unfold nheld, occ, dl_inv in *; rewrite ?Ei, ?El, ?Er, ?Es, ?Ew, ?Ed, ?Ecl, ?En, ?Eck; try lia; auto.
+      constructor; unfold nheld, occ, dl_inv in *; rewrite ?Ei, ?El, ?Er, ?Es, ?Ew, ?Ed, ?Ecl, ?En, ?Eck, ?Elg; try lia; auto.
     + destruct (waitingb (wants s) w) eqn:W.
       * pose proof (waitingb_lt _ _ W) as L.
         pose proof (delivered_set_length (wants s) w WFailed L) as HL.
@@ -283,7 +284,7 @@ Proof.
   - (* LDec *)
     destruct (decs s) as [|n] eqn:EN; [discriminate|]. injection H as <-.
     use_dec cf (with_decs s n). cbn in *.
-    constructor; unfold nheld, occ, dl_inv in *; rewrite ?Ei, ?El, ?Er, ?Es, ?Ew, ?Ed, ?Ecl, ?En, ?Eck; try lia; auto.
+    constructor; unfold nheld, occ, dl_inv in *; rewrite ?Ei, ?El, ?Er, ?Es, ?Ew, ?Ed, ?Ecl, ?En, ?Eck, ?Elg; try lia; auto.
   - (* LTake *)
     destruct (wst (getw (wants s) w)) eqn:EW; try discriminate; injection H as <-;
     (assert (P : pending (getw (wants s) w) = true) by (unfold pending; now rewrite EW));
@@ -317,28 +318,30 @@ Proof.
     destruct (memb c (lent s)) eqn:ML; [|destruct (memb c (rel s)) eqn:MR; [|discriminate]]; injection H as <-.
     + use_rel cf (with_lent s (remove_one c (lent s))) c. cbn in *.
       pose proof (remove_one_length _ _ ML) as HL.
-      constructor; unfold nheld, occ in *; rewrite ?Rc, ?Rl, ?Rr, ?Rs, ?Rd, ?Rdc, ?Rcl, ?Rn, ?Rck; try lia; auto.
+      constructor; unfold nheld, occ in *; rewrite ?Rc, ?Rl, ?Rr, ?Rs, ?Rd, ?Rdc, ?Rcl, ?Rn, ?Rck, ?Rlg; try lia; auto.
       * intros x. specialize (O x). specialize (Rocc x). pose proof (remove_one_cocc _ _ x ML). eqd; lia.
       * eapply dl_inv_ext; [exact D|exact Rext|exact Rck].
     + use_rel cf (with_rel s (remove_one c (rel s))) c. cbn in *.
       pose proof (remove_one_length _ _ MR) as HL.
-      constructor; unfold nheld, occ in *; rewrite ?Rc, ?Rl, ?Rr, ?Rs, ?Rd, ?Rdc, ?Rcl, ?Rn, ?Rck; try lia; auto.
+      constructor; unfold nheld, occ in *; rewrite ?Rc, ?Rl, ?Rr, ?Rs, ?Rd, ?Rdc, ?Rcl, ?Rn, ?Rck, ?Rlg; try lia; auto.
       * intros x. specialize (O x). specialize (Rocc x). pose proof (remove_one_cocc _ _ x MR). eqd; lia.
       * eapply dl_inv_ext; [exact D|exact Rext|exact Rck].
   - (* LClose *)
     destruct (memb c (lent s)) eqn:ML; [|destruct (memb c (scratch s)) eqn:MS; [|discriminate]]; injection H as <-.
     + pose proof (remove_one_length _ _ ML) as HL.
       constructor; unfold nheld, occ, dl_inv in *; cbn; rewrite ?app_length; cbn; try lia; auto.
-      intros x. specialize (O x). pose proof (remove_one_cocc _ _ x ML). rewrite cocc_snoc. eqd; lia.
+      * intros x. specialize (O x). pose proof (remove_one_cocc _ _ x ML). rewrite cocc_snoc. eqd; lia.
+      * intros x. specialize (CL x). rewrite !cocc_snoc. lia.
     + pose proof (remove_one_length _ _ MS) as HL.
       constructor; unfold nheld, occ, dl_inv in *; cbn; rewrite ?app_length; cbn; try lia; auto.
-      intros x. specialize (O x). pose proof (remove_one_cocc _ _ x MS). rewrite cocc_snoc. eqd; lia.
+      * intros x. specialize (O x). pose proof (remove_one_cocc _ _ x MS). rewrite cocc_snoc. eqd; lia.
+      * intros x. specialize (CL x). rewrite !cocc_snoc. lia.
   - (* LCloseFin *)
     destruct (memb c (closing s)) eqn:MC; [|discriminate]. injection H as <-.
     use_dec cf (with_closing s (remove_one c (closing s))). cbn in *.
     pose proof (remove_one_length _ _ MC) as HL.
-    constructor; unfold nheld, occ, dl_inv in *; rewrite ?Ei, ?El, ?Er, ?Es, ?Ew, ?Ed, ?Ecl, ?En, ?Eck; try lia; auto.
-    intros x. specialize (O x). pose proof (remove_one_cocc _ _ x MC). eqd; lia.
+    constructor; unfold nheld, occ, dl_inv in *; rewrite ?Ei, ?El, ?Er, ?Es, ?Ew, ?Ed, ?Ecl, ?En, ?Eck, ?Elg; try lia; auto.
+    intros x. specialize (CL x). pose proof (remove_one_cocc _ _ x MC). lia.
   - (* LCleanIdle *)
     destruct (k <=? length (idle s))%nat eqn:EK; [|discriminate]. injection H as <-.
     pose proof (firstn_skipn k (idle s)) as FS.
@@ -366,6 +369,7 @@ Proof.
   constructor.
   - reflexivity.
   - intros x. unfold occ, delivered. cbn. lia.
+  - intros x. cbn. lia.
   - pose proof (eff_max_pos cf). cbn. lia.
   - intros i. unfold getw. cbn. destruct i; discriminate.
 Qed.
@@ -380,27 +384,96 @@ Proof.
 Qed.
 
 Theorem exact_accounting_reach cf s : reach cf s -> exact_accounting s.
-Proof. intros R. destruct (reach_inv _ _ R) as [A _ _ _]. unfold exact_accounting. now rewrite held_length. Qed.
+Proof. intros R. destruct (reach_inv _ _ R) as [A _ _ _ _]. unfold exact_accounting. now rewrite held_length. Qed.
 
 Theorem count_bound_reach cf s : reach cf s -> count_bound cf s.
-Proof. intros R. destruct (reach_inv _ _ R) as [A _ B _]. unfold count_bound. lia. Qed.
+Proof. intros R. destruct (reach_inv _ _ R) as [A _ _ B _]. unfold count_bound. lia. Qed.
 
 Theorem exclusive_reach cf s : reach cf s -> exclusive s.
 Proof.
-  intros R. destruct (reach_inv _ _ R) as [_ O _ _]. split.
-  - apply (NoDup_count_occ Nat.eq_dec). intros x. rewrite held_cocc. apply O.
-  - intros c H. apply O. rewrite <- held_cocc. apply (count_occ_In Nat.eq_dec) in H. lia.
+  intros R. destruct (reach_inv _ _ R) as [_ O _ _ _]. split.
+  - apply (NoDup_count_occ Nat.eq_dec). intros x. rewrite held_cocc. specialize (O x). lia.
+  - intros c. specialize (O c). rewrite (count_occ_In Nat.eq_dec), held_cocc. lia.
+Qed.
+
+Theorem closing_logged_reach cf s : reach cf s -> closing_logged s.
+Proof.
+  intros R. destruct (reach_inv _ _ R) as [_ _ CL _ _]. intros c H. specialize (CL c).
+  apply (count_occ_In Nat.eq_dec) in H. apply (count_occ_In Nat.eq_dec). lia.
+Qed.
+
+(* at rest every connection that was ever dialled has been closed, exactly once *)
+Theorem quiescent_all_closed cf s : reach cf s -> held s = [] ->
+  NoDup (closelog s) /\ forall c, In c (closelog s) <-> (c < next s)%nat.
+Proof. intros R H. destruct (exclusive_reach _ _ R) as [N I]. rewrite H in N, I. exact (conj N I). Qed.
+
+(* where the cleaner's private copy and the close log come from *)
+Lemma scratch_source cf s l s' : step cf s l = Some s' -> forall c, In c (scratch s') ->
+  In c (scratch s) \/ exists k, l = LCleanIdle k /\ In c (firstn k (idle s)).
+Proof.
+  intros E c I. destruct l; cbn in E.
+  - destruct (tmo <=? 0); [discriminate|]. injection E as <-. left. revert I. unfold acquire.
+    destruct (idle s); [destruct (cnt s <? eff_max cf); [|destruct (waiton cf)]|destruct (fifo cf)]; cbn; auto.
+  - destruct (wst (getw (wants s) w)); try discriminate. injection E as <-. now left.
+  - destruct (nth_error (dials s) k) as [[|w0]|]; try discriminate; [|destruct (waitingb (wants s) w0)]; injection E as <-; now left.
+  - destruct (nth_error (dials s) k) as [[|w0]|]; try discriminate; injection E as <-.
+    + use_dec cf (with_dials s (remove_nth (dials s) k)). rewrite Es in I. now left.
+    + destruct (waitingb (wants s) w0); now left.
+  - destruct (decs s) as [|n]; [discriminate|]. injection E as <-. use_dec cf (with_decs s n). rewrite Es in I. now left.
+  - destruct (wst (getw (wants s) w)); try discriminate; injection E as <-; now left.
+  - cbv zeta in E. destruct (clock s <? wdl (getw (wants s) w)); [discriminate|].
+    destruct (wst (getw (wants s) w)); try discriminate; injection E as <-; now left.
+  - destruct (memb c0 (lent s)); [|destruct (memb c0 (rel s)); [|discriminate]]; injection E as <-.
+    + use_rel cf (with_lent s (remove_one c0 (lent s))) c0. rewrite Rs in I. now left.
+    + use_rel cf (with_rel s (remove_one c0 (rel s))) c0. rewrite Rs in I. now left.
+  - destruct (memb c0 (lent s)); [|destruct (memb c0 (scratch s)) eqn:MS; [|discriminate]]; injection E as <-; cbn in I; [now left|].
+    left. clear MS. induction (scratch s) as [|y l IH]; cbn in *; [tauto|]. destruct (Nat.eqb y c0); [now right|].
+    destruct I as [->|I]; [now left|right; auto].
+  - destruct (memb c0 (closing s)); [|discriminate]. injection E as <-.
+    use_dec cf (with_closing s (remove_one c0 (closing s))). rewrite Es in I. now left.
+  - destruct (k <=? length (idle s))%nat; [|discriminate]. injection E as <-. cbn in I.
+    apply in_app_or in I as [I|I]; [now left|right; eauto].
+  - destruct (forallb _ (wants s)); [|discriminate]. injection E as <-. now left.
+Qed.
+
+(* Close() is only ever called by CloseConn on a connection its caller holds: a requester, or the cleaner's private copy *)
+Lemma closelog_source cf s l s' : step cf s l = Some s' ->
+  closelog s' = closelog s \/
+  exists c, l = LClose c /\ closelog s' = closelog s ++ [c] /\ (In c (lent s) \/ In c (scratch s)).
+Proof.
+  intros E. destruct l; cbn in E.
+  - destruct (tmo <=? 0); [discriminate|]. injection E as <-. left. unfold acquire.
+    destruct (idle s); [destruct (cnt s <? eff_max cf); [|destruct (waiton cf)]|destruct (fifo cf)]; reflexivity.
+  - destruct (wst (getw (wants s) w)); try discriminate. injection E as <-. now left.
+  - destruct (nth_error (dials s) k) as [[|w0]|]; try discriminate; [|destruct (waitingb (wants s) w0)]; injection E as <-; now left.
+  - destruct (nth_error (dials s) k) as [[|w0]|]; try discriminate; injection E as <-.
+    + use_dec cf (with_dials s (remove_nth (dials s) k)). left. exact Elg.
+    + destruct (waitingb (wants s) w0); now left.
+  - destruct (decs s) as [|n]; [discriminate|]. injection E as <-. use_dec cf (with_decs s n). left. exact Elg.
+  - destruct (wst (getw (wants s) w)); try discriminate; injection E as <-; now left.
+  - cbv zeta in E. destruct (clock s <? wdl (getw (wants s) w)); [discriminate|].
+    destruct (wst (getw (wants s) w)); try discriminate; injection E as <-; now left.
+  - destruct (memb c (lent s)); [|destruct (memb c (rel s)); [|discriminate]]; injection E as <-; left.
+    + use_rel cf (with_lent s (remove_one c (lent s))) c. exact Rlg.
+    + use_rel cf (with_rel s (remove_one c (rel s))) c. exact Rlg.
+  - destruct (memb c (lent s)) eqn:ML; [|destruct (memb c (scratch s)) eqn:MS; [|discriminate]]; injection E as <-; right; exists c; cbn.
+    + repeat split; auto. left. now apply memb_In.
+    + repeat split; auto. right. now apply memb_In.
+  - destruct (memb c (closing s)); [|discriminate]. injection E as <-.
+    use_dec cf (with_closing s (remove_one c (closing s))). left. exact Elg.
+  - destruct (k <=? length (idle s))%nat; [|discriminate]. injection E as <-. now left.
+  - destruct (forallb _ (wants s)); [|discriminate]. injection E as <-. now left.
 Qed.
 
 (* the strict reading: connections open (Close not finished) or being dialled never exceed MaxConns *)
 Theorem open_bound_reach cf s : reach cf s -> open_bound cf s.
 Proof.
-  intros R. destruct (reach_inv _ _ R) as [A _ B _]. unfold open_bound, open_or_dialling. rewrite held_length. lia.
+  intros R. destruct (reach_inv _ _ R) as [A _ _ B _]. unfold open_bound, open_or_dialling. rewrite held_length. lia.
 Qed.
 
 Theorem within_deadline_reach cf s : reach cf s -> within_deadline s.
 Proof.
-  intros R. destruct (reach_inv _ _ R) as [_ _ _ D]. intros w I P.
+  intros R. destruct (reach_inv _ _ R) as [_ _ _ _ D]. intros w I P.
   destruct (In_nth _ _ dummy_want I) as (i & L & E). specialize (D i). unfold getw in D. rewrite E in D. auto.
 Qed.
 
@@ -475,7 +548,7 @@ Theorem time_progress cf s : reach cf s -> step cf s LTick = None ->
     exists ls s', (ls = [LTimeout w] \/ ls = [LEnqueue w; LTimeout w]) /\ run cf s ls = Some s' /\
                   pending (getw (wants s') w) = false.
 Proof.
-  intros R H. destruct (reach_inv _ _ R) as [_ _ _ D]. cbn in H.
+  intros R H. destruct (reach_inv _ _ R) as [_ _ _ _ D]. cbn in H.
   destruct (forallb _ (wants s)) eqn:EF; [discriminate|].
   assert (EX : exists x, In x (wants s) /\ pending x = true /\ wdl x <= clock s).
   { clear -EF. induction (wants s) as [|y l IH]; cbn in EF; [discriminate|].
